@@ -105,6 +105,8 @@ def _frame_part(chk, n):
         dist[case['mode']] = dist.get(case['mode'], 0) + 1
         dist['end:' + res['end']] = dist.get('end:' + res['end'], 0) + 1
         dist['chunkings'] = dist.get('chunkings', 0) + res['nchunkings']
+        dist['slow_arrival_reads'] = dist.get('slow_arrival_reads', 0) + res.get('slow_reads', 0)
+        dist['slow_arrival_poll_timeouts'] = dist.get('slow_arrival_poll_timeouts', 0) + res.get('slow_polls', 0)
         dist['records_read'] = dist.get('records_read', 0) + res['nread']
         dist['max_wire_len'] = max(dist.get('max_wire_len', 0), res['wire_len'])
         if res.get('exhaustive_chunkings'):
@@ -152,8 +154,12 @@ def _sock_part(chk, n_sock, n_pipe):
     cases = [scen.gen_sock(rng, chk.tier, mode='thread', boundary='one'),
              scen.gen_sock(rng, chk.tier, mode='thread', boundary='flood'),
              scen.gen_sock(rng, chk.tier, mode='thread', boundary='bigfast'),
-             scen.gen_sock(rng, chk.tier, mode='proc', boundary='bigfast')]
-    cases += [scen.gen_sock(rng, chk.tier, boundary=('bigfast' if rng.random() < 0.1 else None)) for _ in range(n_sock)]
+             scen.gen_sock(rng, chk.tier, mode='proc', boundary='bigfast'),
+             scen.gen_sock(rng, chk.tier, mode='thread', boundary='abandon'),
+             scen.gen_sock(rng, chk.tier, mode='thread', boundary='abandon'),
+             scen.gen_sock(rng, chk.tier, mode='proc', boundary='abandon')]
+    cases += [scen.gen_sock(rng, chk.tier, boundary=rng.choice(['bigfast', 'abandon']) if rng.random() < 0.15 else None)
+              for _ in range(n_sock)]
     cases += [scen.gen_pipe(rng, chk.tier) for _ in range(n_pipe)]
     dist = chk.cov['distribution'].setdefault('sock', {})
     walls = []
@@ -175,6 +181,8 @@ def _sock_part(chk, n_sock, n_pipe):
             if res.get('server_stopped') is False:
                 dist['server_not_stopped_in_5s(outside C18)'] = dist.get('server_not_stopped_in_5s(outside C18)', 0) + 1
             dist['requests'] = dist.get('requests', 0) + len(case['reqs'])
+            dist['requests_abandoned_by_requester'] = dist.get('requests_abandoned_by_requester', 0) + (res.get('abandoned') or 0)
+            dist['late_responses_dropped'] = dist.get('late_responses_dropped', 0) + (res.get('late_dropped') or 0)
             dist['handler_completions_overtaking'] = dist.get('handler_completions_overtaking', 0) + (res.get('reordered') or 0)
             dist['sends_with_other_events_before_registration'] = \
                 dist.get('sends_with_other_events_before_registration', 0) + (res.get('drain_windows') or 0)
